@@ -38,7 +38,15 @@ func uidStr(kind byte, n int64) string {
 	return fmt.Sprintf("0000000%c-0000-4000-8000-%012d", kind, n)
 }
 func marketUID(n int64) string { return uidStr('a', n) }
-func oddsUID(n int64) string   { return uidStr('b', n) }
+// outcome ids >= upperCaseBase name the same uuid spelled in upper case: a different uid for every exact comparison of the code
+const upperCaseBase = 1000000
+
+func oddsUID(n int64) string {
+	if n >= upperCaseBase {
+		return strings.ToUpper(uidStr('b', n-upperCaseBase))
+	}
+	return uidStr('b', n)
+}
 func betUID(n int64) string    { return uidStr('c', n) }
 
 func uidNum(s string) int64 {
